@@ -661,3 +661,37 @@ Proof.
   destruct (run_ops_safe_inv ops empty_world inv_empty) as (w' & H & Hi).
   rewrite Hr in H. inversion H; subst. eapply Hi; eauto.
 Qed.
+
+(* ------------------------------------------------------------------ *)
+(* Connection ids the client does not have (never created, closed, or
+   another client's): no message that names one has any effect beyond a
+   `close` sent to the sender itself, and none panics (the latter is part of
+   [signalling_safe]; these lemmas say what happens instead) *)
+
+Definition no_conn (c : client) (id : str) : Prop :=
+  find_up c id = None /\ find_down c id = None.
+
+Lemma ice_any_id : forall w h c m,
+  is_empty (m_id m) = false -> m_candidate m = true -> handle_ice w h c m = ok w.
+Proof.
+  intros w h c m Hi Hc. unfold handle_ice. rewrite Hi, Hc. cbn [negb].
+  destruct (find_up c (m_id m)); [reflexivity|]. destruct (find_down c (m_id m)); reflexivity.
+Qed.
+
+Lemma unknown_id_harmless : forall w h c m,
+  get_client w h = Some c -> is_empty (m_id m) = false -> no_conn c (m_id m) ->
+  (m_candidate m = true -> handle_ice w h c m = ok w) /\
+  handle_renegotiate w h c m = ok w /\
+  handle_close w h c m = ok w /\
+  handle_abort w h c m = ok (close_down_conn w h (m_id m)) /\
+  handle_answer w h c m = ok (close_down_conn w h (m_id m)) /\
+  (exists a, handle_request_stream w h c m = failed w EInternal a).
+Proof.
+  intros w h c m Hc Hi [Hu Hd]. repeat split.
+  - intro Hcand. apply ice_any_id; assumption.
+  - unfold handle_renegotiate. rewrite Hi, Hd. reflexivity.
+  - unfold handle_close, del_up_conn. rewrite Hi, Hc, Hu. reflexivity.
+  - unfold handle_abort. rewrite Hi. reflexivity.
+  - unfold handle_answer. rewrite Hi, Hd. reflexivity.
+  - unfold handle_request_stream. rewrite Hd. eexists. reflexivity.
+Qed.
